@@ -189,6 +189,22 @@ def corpus_cases():
     return cases
 
 
+def edit_in_place(rng, dg):
+    from rdflib.namespace import RDFS
+    ts = sorted(dg, key=lambda t: tuple(wire.tkey(x) for x in t))
+    for s_, p_, o_ in ts:
+        if p_ == RDFS.subClassOf and rng.random() < 0.7:
+            dg.remove((s_, p_, o_))
+            if rng.random() < 0.6:
+                dg.add((o_, p_, s_))
+    ts = sorted(dg, key=lambda t: tuple(wire.tkey(x) for x in t))
+    for t in rng.sample(ts, min(len(ts), rng.randint(1, 3))):
+        dg.remove(t)
+    extra = shapegen.gen_data(rng)
+    for t in rng.sample(extra, min(len(extra), rng.randint(1, 4))):
+        dg.add(t)
+
+
 def run(ctx, out):
     rng = random.Random(ctx.seed * 7919 + 1)
     quick = ctx.tier == "quick"
@@ -202,3 +218,13 @@ def run(ctx, out):
     replies = ctx.driver.ask(lines)
     for i, (label, sg, dg) in enumerate(cases):
         check_case(ctx, out, "c%d" % i, sg, dg, replies["c%d" % i], label)
+    # the same graph OBJECTS validated again after the data graph was edited in place (triples dropped and added, the class
+    # hierarchy turned round): what a component remembered about a graph object must not outlive the graph's content
+    again = [c for c in cases if c[0] == "rand"][: (80 if quick else 600)] + [c for c in cases if c[0].startswith("kind:class")][:6]
+    lines = []
+    for i, (label, sg, dg) in enumerate(again):
+        edit_in_place(rng, dg)
+        lines.append(vcase.model_line("e%d" % i, sg, dg))
+    replies = ctx.driver.ask(lines)
+    for i, (label, sg, dg) in enumerate(again):
+        check_case(ctx, out, "e%d" % i, sg, dg, replies["e%d" % i], label + ":edited-in-place")
